@@ -1,5 +1,5 @@
 """C09 — patterns obey the iterator protocol; helpers agree; copies are independent."""
-from .. import pat_impl, pat_props, pat_suite
+from .. import common, pat_impl, pat_props, pat_suite
 from ..pat_impl import REG
 
 PROPERTY = "C09"
@@ -118,8 +118,92 @@ def float_len_and_shared_copy_cases(ctx):
                           {"suite": "shared-copy", "shape": shape, "values": vals, "repeats": r_rep, "position": k})
 
 
+def chord_voice_cases(ctx):
+    """Helpers on sequences whose items are CHORDS (tuples), nested lists or dicts that hold finite patterns: a voice inside
+    a chord is a pattern nested inside the sequence like any direct item — when it ends, the sequence ends — so len(), all(),
+    nextn(), a for-loop and repeated next() must agree from every position (implementation-only oracle: the twin's next())."""
+    common.ensure_repo_on_path()
+    import isobar as iso
+    r = ctx.rng
+
+    def pull(o, m):
+        out = []
+        for _ in range(m):
+            try:
+                out.append(next(o))
+            except StopIteration:
+                break
+        return out
+
+    for i in range(ctx.scale(200, 6000)):
+        def item(spec):
+            kind = spec[0]
+            if kind == "int":
+                return spec[1]
+            if kind == "voice":
+                return iso.PSequence(list(spec[1]), spec[2])
+            if kind == "chord":
+                return tuple(item(x) for x in spec[1])
+            if kind == "list":
+                return [item(x) for x in spec[1]]
+            return {"k": item(spec[1])}
+
+        def gen_item(depth=0):
+            k = r.random()
+            if k < 0.35 or depth > 1:
+                return ("int", r.randint(0, 90))
+            if k < 0.55:
+                return ("voice", [r.randint(0, 90) for _ in range(r.randint(1, 4))], r.choice([1, 1, 2, 3]))
+            if k < 0.85:
+                return ("chord", [gen_item(depth + 1) for _ in range(r.randint(1, 3))])
+            if k < 0.95:
+                return ("list", [gen_item(depth + 1) for _ in range(r.randint(1, 3))])
+            return ("dict", gen_item(depth + 1))
+        specs = [gen_item() for _ in range(r.randint(1, 4))]
+        if not any(sp[0] == "chord" for sp in specs):
+            specs.append(("chord", [("voice", [r.randint(0, 90) for _ in range(r.randint(1, 3))], 1), ("int", r.randint(0, 90))]))
+        reps = r.choice([1, 2, 3, 4, 6])
+        shape = r.choice(["direct", "direct", "stutter", "concat"])
+
+        def make():
+            p = iso.PSequence([item(sp) for sp in specs], reps)
+            if shape == "stutter":
+                return iso.PStutter(p, 1)
+            if shape == "concat":
+                return iso.PConcatenate([p, iso.PSequence([-1], 1)])
+            return p
+        k = r.choice([0, 0, 1, 2, 3, 5])
+        helper = r.choice(["len", "len", "all", "nextn", "for"])
+        try:
+            twin = make()
+            pull(twin, k)
+            rest = pull(twin, 500)
+            o = make()
+            pull(o, k)
+            if helper == "len":
+                got, exp = len(o), len(rest)
+            elif helper == "all":
+                got, exp = o.all(), rest
+            elif helper == "nextn":
+                got, exp = o.nextn(500), rest
+            else:
+                got, exp = [v for v in o], rest
+        except Exception as ex:
+            got, exp = "raised %s" % type(ex).__name__, None
+        ctx.case(("chord-voice", repr(specs), reps, shape, k, helper), nontrivial=True, validated=False,
+                 sample={"chord_voice": {"items": repr(specs)[:200], "repeats": reps, "shape": shape, "position": k, "helper": helper}} if i < 3 else None)
+        ctx.count("chord-voice:" + helper, "chord-voice-shape:" + shape)
+        if got != exp:
+            ctx.violation("C09:helpers:PSequence-chord-voices",
+                          "PSequence(%s, %d) [%s] at position %d: %s gives %s, repeated next() on a twin %s"
+                          % (repr(specs)[:200], reps, shape, k, helper, repr(got)[:120], repr(exp)[:120]),
+                          {"suite": "c09-chord-voices", "items": repr(specs), "repeats": reps, "shape": shape, "position": k, "helper": helper,
+                           "got": repr(got)[:400], "twin": repr(exp)[:400], "first_failing_clause": "len() their number / all() the remaining values"})
+
+
 def run(ctx):
     float_len_and_shared_copy_cases(ctx)
+    chord_voice_cases(ctx)
     classes = pat_props.focus_classes()
     n_cases = ctx.scale(2500, 250000)
     scripts, meta = [], {}
